@@ -24,7 +24,8 @@ fn run_case(m: &mut Monitor, frags: &[String], cap: usize, exact_alloc: bool) {
     let case = || json!({"frags": frags, "cap": cap, "exact_alloc": exact_alloc});
     // `exact_alloc`: buffer is its own allocation (Miri/ASan see any out-of-bounds write);
     // otherwise carved from a poisoned allocation with guards on both sides.
-    let guard = if exact_alloc { 0 } else { GUARD };
+    // the guards are wider than the whole text: one misplaced fragment copy cannot reach past them
+    let guard = if exact_alloc { 0 } else { GUARD + len };
     let mut backing = vec![POISON; cap + 2 * guard];
     let mut nw = 0xdead_beef_usize;
     let res = {
@@ -96,7 +97,7 @@ fn main() {
     let args = Args::parse();
     let mut m = Monitor::new(
         "C47",
-        "texts = 0..6 Display fragments (empty, 1-byte, multi-byte UTF-8) x every capacity 0..=len+8, buffer carved from a poisoned allocation with 24 guard bytes each side and also as an exact-size allocation (for Miri/ASan); non-trivial = distinct (fragment lengths, capacity) with >=2 fragments",
+        "texts = 0..6 Display fragments (empty, 1-byte, multi-byte UTF-8) x every capacity 0..=len+8, buffer carved from a poisoned allocation with guard zones wider than the text on each side and also as an exact-size allocation (for Miri/ASan); non-trivial = distinct (fragment lengths, capacity) with >=2 fragments",
     )
     .min(50)
     .require("fits", "success branch")
@@ -113,7 +114,14 @@ fn main() {
         let frags = gen_frags(&mut rng);
         let len: usize = frags.iter().map(String::len).sum();
         for cap in 0..=len + 8 {
+            // exact-size allocations only where the engine turns an out-of-bounds write into a
+            // report (Miri, ASan); natively it would corrupt the monitor's own heap, so the
+            // guard-byte variant is the native oracle
+            let sanitized = args.engine.starts_with("miri") || args.engine.starts_with("asan");
             for exact in [false, true] {
+                if exact && !sanitized {
+                    continue;
+                }
                 run_case(&mut m, &frags, cap, exact);
             }
             if frags.len() >= 2 {
